@@ -13,6 +13,7 @@ import (
 	"os"
 	"path/filepath"
 	"regexp"
+	"runtime/debug"
 	"sort"
 	"strings"
 	"time"
@@ -378,7 +379,7 @@ func (a *Actor) doR(kind, method, path string, hdr map[string]string, body []byt
 					panic(r)
 				}
 				c.Aborted = true
-				c.Panic = fmt.Sprint(r)
+				c.Panic = fmt.Sprint(r) + "\n" + string(debug.Stack())
 			}
 		}()
 		w.Handler.ServeHTTP(rw, req)
@@ -448,7 +449,7 @@ func (r *pieceReader) Read(p []byte) (int, error) {
 
 // ResponseBroken posts a response whose body breaks off after head (the connection fails while the platform reads).
 func (a *Actor) ResponseBroken(id string, head []byte) *Call {
-	c := a.doR("response", "POST", rtBase+"/invocation/"+id+"/response", map[string]string{"Content-Type": "application/octet-stream"}, head, &brokenBody{head: head})
+	c := a.doR("response-broken", "POST", rtBase+"/invocation/"+id+"/response", map[string]string{"Content-Type": "application/octet-stream"}, head, &brokenBody{head: head})
 	c.ReqID = id
 	return c
 }
